@@ -56,6 +56,13 @@ pub(super) fn get_highest_index(file_spec: &FileSpec) -> Option<u32> {
         super::list_and_cleanup::list_of_log_and_compressed_files(file_spec, &InfixFilter::Numbrs)
     {
         let name = file.file_stem().unwrap(/*ok*/).to_string_lossy();
+        // the stem of a compressed file still carries the configured suffix
+        let name = match file_spec.get_suffix() {
+            Some(sfx) if file.extension().is_some_and(|ext| ext == "gz") => name
+                .strip_suffix(&format!(".{sfx}"))
+                .map_or(name.to_string(), ToString::to_string),
+            _ => name.to_string(),
+        };
         let infix = if file_spec.has_basename()
             || file_spec.has_discriminant()
             || file_spec.uses_timestamp()
